@@ -54,6 +54,7 @@ type World struct {
 	NFiles int
 	flows  map[*ssa.Function]*Flow
 	preds  map[*ssa.Function]*ISet // tag predicate summaries
+	rets   map[retKey]ISet
 }
 
 
